@@ -221,7 +221,7 @@ impl Property for C01 {
          constant chains, address-dependent constants, operands at every type boundary, #d/#dN of widths 1..64, strings, #res, #align, forward #addr, 0-3 banks with \
          units 4..32), one fifth with one injected fault (unknown mnemonic, operand count, wrapper, undefined symbol). Oracle = reference assembler R-ASM (structural \
          matcher + layout + R-EXPR): success iff the model succeeds, then identical bits (length included) and identical symbol table; model-reject => the assembler must \
-         report an error and produce no output. Non-trivial = >= 3 instructions, >= 1 operand naming a label or constant, and two rules sharing a mnemonic (prefix); distinct by hash of the rendered source."
+         report an error and produce no output. Non-trivial = >= 3 instructions, >= 1 operand naming a label or constant, and two rules sharing a mnemonic (prefix); distinct by hash of the rendered source. (v4) one case in twelve is the directed position-function family: `#fn relq(t) => t - $ - 2`, `jrq` through it (in the production or in the operand), a pseudo-instruction `callq {a} => asm { pushq retq / jmpq {a} / retq: }`, fixed sizes (6/2/1 bytes); the reference is computed directly: addresses by summing sizes, every encoding applied to its arguments at its own address."
             .to_string()
     }
     fn assumptions(&self) -> Vec<String> {
